@@ -336,8 +336,45 @@ except Exception as e:
 """
 
 
+STATS_SCRIPT = r"""
+import sys
+sys.path.insert(0, %(repo)r)
+from nucs.problems.problem import Problem
+from nucs.propagators.propagators import ALG_ALLDIFFERENT, ALG_AFFINE_LEQ
+from nucs.solvers.backtrack_solver import BacktrackSolver
+from nucs.solvers.multiprocessing_solver import MultiprocessingSolver
+from nucs.solvers.consistency_algorithms import CONSISTENCY_ALG_BC, CONSISTENCY_ALG_SHAVING
+bad = []
+for alg in (CONSISTENCY_ALG_BC, CONSISTENCY_ALG_SHAVING):
+    def mk():
+        pb = Problem([(0, 3)] * 4)
+        pb.add_propagator(([0, 1, 2, 3], ALG_ALLDIFFERENT, []))
+        pb.add_propagator(([0, 3], ALG_AFFINE_LEQ, [1, -1, -1]))
+        return pb
+    parts = mk().split(3, 0)
+    seq = []
+    for p in mk().split(3, 0):
+        s = BacktrackSolver(p, consistency_alg_idx=alg, log_level="CRITICAL"); s.solve_all(); seq.append(s.get_statistics())
+    mp = MultiprocessingSolver([BacktrackSolver(p, consistency_alg_idx=alg, log_level="CRITICAL") for p in parts], log_level="CRITICAL")
+    mp.solve_all()
+    agg = mp.get_statistics()
+    for k in agg:
+        want = max(s[k] for s in seq) if k == "SOLVER_CHOICE_DEPTH" else sum(s[k] for s in seq)
+        if agg[k] != want:
+            bad.append((alg, k, agg[k], want))
+print("STATS", bad)
+"""
+
+
 def replay_reducer(r):
     import subprocess
+
+    if r["kind"] in ("statistics-not-the-sum-of-final-vectors", "statistics-keys", "get_statistics-raises"):
+        p = subprocess.run([sys.executable, "-c", STATS_SCRIPT % dict(repo=os.environ.get("NUSYM_REPO", "/repo"))], capture_output=True, text=True, timeout=300)
+        line = [l for l in p.stdout.splitlines() if l.startswith("STATS ")]
+        if not line:
+            return True, "get_statistics failed: " + (p.stdout + p.stderr)[-300:]
+        return line[-1] != "STATS []", "aggregated vs sum of the sequential runs of the same parts (alg, label, aggregated, expected): " + line[-1][6:300]
 
     nw = len(r["nsol"])
     healthy_kind = r["kind"] in ("raises-on-healthy-run", "returned-before-all-workers-finished", "none-although-solutions-exist", "not-optimal", "solutions-not-the-multiset-union")
@@ -378,11 +415,17 @@ from nucs.solvers.consistency_algorithms import CONSISTENCY_ALG_BC, CONSISTENCY_
 height, nvars, heur, shaving = %(height)r, %(nvars)r, %(heur)r, %(shaving)r
 try:
     width = 2 if heur in ("mid_value", "min_cost") else 1
-    s = BacktrackSolver(Problem([(0, width)] * nvars), consistency_alg_idx=CONSISTENCY_ALG_SHAVING if shaving else CONSISTENCY_ALG_BC,
+    widths = %(widths)r or [width] * nvars
+    pb = Problem([(0, w_) for w_ in widths])
+    if %(constrained)r:
+        from nucs.propagators.propagators import ALG_AFFINE_LEQ
+        for k in range(1, nvars):
+            pb.add_propagator(([k, 0], ALG_AFFINE_LEQ, [1, 2, 2]))  # x_k + 2 x_0 <= 2: first solution in DFS order is (0, 1, 1, ...)
+    s = BacktrackSolver(pb, consistency_alg_idx=CONSISTENCY_ALG_SHAVING if shaving else CONSISTENCY_ALG_BC,
                         dom_heuristic_idx=getattr(H, "DOM_HEURISTIC_" + heur.upper()), dom_heuristic_params=[[2, 1, 2]] * nvars if heur == "min_cost" else [[]],
                         stack_max_height=height, log_level="CRITICAL")
     first = next(iter(s.solve()))
-    print("RETURNED first solution", first.tolist()[:8], "... depth", s.get_statistics()["SOLVER_CHOICE_DEPTH"])
+    print("RETURNED first solution", first.tolist()[:8], "... depth", s.get_statistics()["SOLVER_CHOICE_DEPTH"], "EXPECTED-FIRST" if (not %(constrained)r or first.tolist() == [0] + [1] * (nvars - 1)) else "WRONG-FIRST")
 except Exception as e:
     print("RAISED", type(e).__name__, e)
 """
@@ -396,9 +439,12 @@ def replay_stack(r):
 
     height = r["height"]
     nvars = r.get("nvars") or (height + 1)
+    heur, shaving, widths, constrained = r.get("heuristic", "min_value"), bool(r.get("shaving")), None, False
     if r["kind"] in ("pointer-cannot-represent-top-level", "ctor-dtype") or height > 256:
-        nvars = max(nvars, 258)
-    code = STACK_SCRIPT % dict(repo=os.environ.get("NUSYM_REPO", "/repo"), height=height, nvars=nvars, heur=r.get("heuristic", "min_value"), shaving=bool(r.get("shaving")))
+        # the deepest search the guard lets through: an odd level, then two levels per choice, then the shaving probe
+        nvars = 130
+        heur, shaving, widths, constrained = "mid_value", True, [1] + [2] * (nvars - 1), True
+    code = STACK_SCRIPT % dict(repo=os.environ.get("NUSYM_REPO", "/repo"), height=height, nvars=nvars, heur=heur, shaving=shaving, widths=widths, constrained=constrained)
     proc = subprocess.Popen([sys.executable, "-c", code], stdout=subprocess.PIPE, stderr=subprocess.STDOUT, text=True, start_new_session=True)
     try:
         out, _ = proc.communicate(timeout=float(os.environ.get("NUSYM_WATCHDOG_S", "60")))
@@ -407,6 +453,8 @@ def replay_stack(r):
         proc.wait()
         return True, f"height={height} nvars={nvars}: no error raised, the call did not return within the watchdog"
     out = out.strip()[-300:]
+    if "WRONG-FIRST" in out:
+        return True, f"height={height} nvars={nvars}: no error raised and the first solution is not the first one in search order: {out}"
     if "RAISED" in out:
         # in interpreted mode numpy's own bounds check raises IndexError: that is not the engine reporting the problem
         if "IndexError" in out or "OverflowError" in out:
@@ -1008,6 +1056,17 @@ def real_model(inst):
 
 def replay_models(r):
     """r['instances']: list of dict(model, args, count|optimum). reproduced iff the real solver disagrees with the recorded value"""
+    if r.get("model") == "knapsack" and "volumes" in r:
+        # symbolic-instance counterexample: the real solver's optimum on that instance vs brute force over the definition
+        from nucs.examples.knapsack.knapsack_problem import KnapsackProblem
+        from nucs.solvers.backtrack_solver import BacktrackSolver
+
+        w, v, c = r["weights"], r["volumes"], r["capacity"]
+        best = max(sum(wi for wi, t in zip(w, ts) if t) for ts in itertools.product((0, 1), repeat=len(w)) if sum(vi for vi, t in zip(v, ts) if t) <= c)
+        pb = KnapsackProblem(list(w), list(v), c)
+        sol = BacktrackSolver(pb, log_level="CRITICAL").maximize(pb.weight)
+        got = None if sol is None else int(sol[pb.weight])
+        return got != best, f"weights={w} volumes={v} capacity={c}: real solver optimum {got}, definition {best}"
     bad = []
     for inst in r["instances"]:
         exp = inst.get("count", inst.get("optimum"))
